@@ -142,8 +142,11 @@ Definition extend_one (epoch new_exp n : Z) (s : sector) (spaces : gmap Z (Z * Z
     (ds : list edecl) : R sector :=
   let k := check_new_expiration epoch new_exp s in
   if negb (k =? OK) then Err k else
-  if s_simple s then extend_simple epoch new_exp n s spaces (maintained ds n)
-  else Ok (extend_non_simple epoch new_exp s).
+  let? s' := (if s_simple s then extend_simple epoch new_exp n s spaces (maintained ds n)
+              else Ok (extend_non_simple epoch new_exp s)) in
+  (* qa_power_for_weight divides by sector_size * (new_expiration - power_base_epoch): when the
+     sector is "extended" to the current epoch the actor panics (abort, roll-back) *)
+  if new_exp - epoch =? 0 then Err ASSERTION_FAILED else Ok s'.
 
 (* the sector numbers of a declaration, as the BitField enumerates them: increasing, no repeats *)
 Fixpoint dedup_sorted (l : list Z) : list Z :=
